@@ -168,7 +168,8 @@ class Flow:
 
     def _inlinable_name(self, c):
         # helpers of the write transaction, of the plugin registry and plain functions of the plugin modules
-        return ("QueryServerWriteTransaction" in c or "::plugins::" in c or "::repl::consumer::" in c)
+        return ("QueryServerWriteTransaction" in c or "::plugins::" in c or "::repl::consumer::" in c
+                or c.startswith(self.crate + "::server::"))
 
     # ---- entry point --------------------------------------------------------------------------
     def run(self, fn_rec, start=None):
